@@ -451,6 +451,7 @@ func main() {
 					run.Count("crowd_deliveries_to_staying_collectors", cr.Deliveries)
 					run.Count("crowd_subscribe_unsubscribe_pairs", cr.ChurnOps)
 					run.Count("racing_remove_task_calls", cr.RemoveRaces)
+					run.Count("crowd_subscribe_calls_overlapping_add_task", cr.LateSubscribers)
 					for k, kind := range cr.Kinds {
 						run.Violate(cr.Idx, kind, map[string]string{"slow_collectors": fmt.Sprint(cr.SlowMs > 0)}, map[string]interface{}{"scenario": cr, "note": cr.Notes[k]})
 					}
